@@ -41,6 +41,9 @@ def solve_univariate(poly, var, env):
     return sorted({(-b + r) * i2a % P, (-b - r) * i2a % P})
 
 
+from sym.witness import scaling_witnesses, roots_mod_p
+
+
 def algebraic_witnesses(accept_polys, dval, seed):
     """quadruples that satisfy the tests an accepting path actually performs (polynomials vanishing mod p) obtained by
     solving for one coordinate with the other three taken from valid points / small values"""
@@ -141,6 +144,11 @@ def setext_battery_with_witnesses(chk, base):
             extra += algebraic_witnesses(polys, dval, chk.seed)
         except Exception as e:
             chk.note_inconclusive("witness search failed: %r" % (e,))
+    for polys in chk.extra.get("setext_reject_polys", []):
+        try:
+            extra += scaling_witnesses(polys, dval, chk.seed)
+        except Exception as e:
+            chk.note_inconclusive("witness search (rejecting path) failed: %r" % (e,))
     return setext_battery(chk.seed, extra)
 
 
@@ -207,6 +215,18 @@ def k_setext(l1):
                 terms.append(z3.Not(bx))
             s.add(z3.Not(z3.Or(terms)) if terms else z3.BoolVal(True))
             r = str(s.check())
+            if r != "unsat":
+                # the equalities this rejecting path has established (for the witness search over valid representations)
+                rej = []
+                for h in p.dstate.get("hyp", []):
+                    if h[0] == "eq":
+                        so2 = z3.Solver()
+                        for c in p.pc:
+                            so2.add(c)
+                        so2.add(z3.Not(h[2]))
+                        if so2.check() == z3.unsat:
+                            rej.append(h[1])
+                chk.extra.setdefault("setext_reject_polys", []).append(rej)
             chk.add(Ob("SetExtendedCoordinates [rejecting path %d]: rejection only when Z = 0 or an equation fails" % i, r, time.time() - t0, [fname], "BV over congruence atoms"))
             chk.add(Ob("SetExtendedCoordinates [rejecting path %d]: returns (nil, error), receiver unwritten" % i,
                        "unsat" if p.outcome[1][0] is None and not any(w[0] == "w" and w[1] == v.obj for w in p.log) else "sat", 0, [fname], "effects"))
@@ -243,7 +263,7 @@ def run(chk):
     items += [("SetExtendedCoordinates", lambda: k_setext(l1)), ("ExtendedCoordinates", lambda: k_export(l1))]
     run_kernels(chk, items)
     L1m.settle(chk, [o for o in chk.obs if "ExtendedCoordinates" in o.name], lambda: setext_battery_with_witnesses(chk, base), "Point.SetExtendedCoordinates")
-    chk.extra.pop("setext_accept_polys", None)
+    chk.extra.pop("setext_accept_polys", None); chk.extra.pop("setext_reject_polys", None)
     chk.samples = [o.j() for o in chk.obs if "ExtendedCoordinates" in o.name][:5]
 
 
